@@ -70,6 +70,18 @@ def strategy(draw):
     # linear operators: bandwidth sometimes expressed in bins so that narrow/wide windows both occur
     if op in ("linear_rectangular", "linear_triangular", "parzen") and draw(st.booleans()):
         bw = float(df * draw(gen.log_floats(0.3, 40)))
+    translate = None
+    if draw(gen.chance(5)):
+        # exactly representable grid (n and 1/dt powers of two), a linear-frequency kernel whose edges fall exactly on
+        # bins: the kernel depends on f - fc only, so moving centre and spectrum by m bins must not change the output
+        n = 2 ** draw(st.sampled_from([7, 9, 11, 12, 13, 14]))
+        dt = draw(st.sampled_from([1 / 128, 1 / 256, 1 / 64, 1 / 512]))
+        nf, f = n // 2 + 1, np.fft.rfftfreq(n, dt)
+        df = float(f[1])
+        op = draw(gen.choice(["linear_rectangular", "linear_triangular", "parzen", "linear_rectangular"]))
+        half = draw(st.sampled_from([1, 2, 3, 8, 20, 64]))
+        bw = float(2 * half * df) if op != "parzen" else float(df * draw(st.sampled_from([1, 2, 4, 16])))
+        translate = dict(half=half, centre=draw(gen.floats(0.05, 0.95)), spike=draw(st.sampled_from(["edges", "edges", "none"])))
     rows = draw(st.lists(spectrum_recipe(), min_size=1, max_size=5))
     fc_desc = draw(st.lists(st.one_of(
         st.tuples(st.just("bin"), st.integers(0, nf - 1)),
@@ -106,7 +118,7 @@ def strategy(draw):
     # storage type of the spectrum handed to the operator (counts are integers; single precision is common)
     dtype = draw(gen.choice(["float64", "float64", "float64", "float32", "int64", "int32", "uint16", "float64"]))
     return dict(n=n, dt=dt, op=op, bw=bw, rows=rows, fcs=fcs, alpha=alpha, beta=beta,
-                perm_seed=perm_seed, poly=poly, const=const, dtype=dtype)
+                perm_seed=perm_seed, poly=poly, const=const, dtype=dtype, translate=translate)
 
 
 # -- check ------------------------------------------------------------------
@@ -279,6 +291,34 @@ def check_case(case):
         require(close(out[:, sub], b, rtol=RT12, atol=max(RT12, 1e-14) * scale),
                 f"{op}: compiled kernel differs from its interpreted source (rel err {rel_err(out[:, sub], b):.3g})")
         labels.append("compiled-vs-interpreted")
+
+    # (h) translation invariance of the linear-frequency kernels on an exactly representable grid
+    tr = case.get("translate")
+    if tr:
+        w0, _ = oracle.ref_weights(op, f, float(f[nf // 2]), bw)
+        reach = int(np.max(np.abs(np.flatnonzero(w0 > 0) - nf // 2))) + 1          # half-width of the window in bins (+1)
+        if nf - 2 * reach - 4 > 8:
+            b = reach + 2 + int(tr["centre"] * (nf - 2 * reach - 5))
+            row = spec[0].copy()
+            if tr["spike"] == "edges":
+                spike = 50.0 * max(float(row.max()), 1e-300)
+                for e in (b - reach + 1, b + reach - 1, b - reach, b + reach):
+                    row[e] += spike
+            base = sut(fn, f, row[None, :], np.array([f[b]]), bw, what=op)[0, 0]
+            lo_e, hi_e = b - reach + 1, b + reach - 1                                  # outermost bins that may carry weight
+            shifts = set()
+            for j in range(1, int(math.log2(nf)) + 1):
+                for t in (2 ** j - 1, 2 ** j, 2 ** j + 1):
+                    shifts.update((t - lo_e, t - hi_e, t - b))
+            shifts = sorted(m for m in shifts if m != 0 and b + m - reach >= 1 and b + m + reach <= nf - 2)
+            for m in shifts:
+                moved = sut(fn, f, np.roll(row, m)[None, :], np.array([f[b + m]]), bw, what=op)[0, 0]
+                if not close(moved, base, rtol=1e-12, atol=1e-300):
+                    raise Violation(f"{op}(bw={bw}) on the grid rfftfreq({n}, {dt}): the output at bin {b} ({base!r}) changes to {moved!r} when "
+                                    f"centre and spectrum are both moved by {m} bins (window bins {lo_e + m}..{hi_e + m}); "
+                                    f"the kernel is a function of f - fc only")
+            labels.append("translation-invariance")
+            labels.append(f"translation-shifts>={min(len(shifts), 8)}")
 
     nonconst = bool(np.any(np.ptp(spec, axis=1) > 0))
     nontrivial = nonconst and bool(np.any(multi & keep))
